@@ -35,7 +35,7 @@ ASSUMPTIONS = [
     "general Union types are outside the property's list of constructors and not generated",
 ]
 MIN_CLASSES = {
-    "quick": {"types:conforming": 2000, "types:defective": 2000, "types:defect-below-top": 1000, "missing:in-list": 100, "missing:in-dict": 100, "missing:under-meta": 100, "missing:control-valid": 100},
+    "quick": {"types:conforming": 2000, "types:defective": 2000, "types:defect-below-top": 1000, "missing:in-list": 100, "missing:in-dict": 100, "missing:under-meta": 100, "missing:control-valid": 100, "missing:nested-container": 100},
     "thorough": {"types:defect-below-top": 10000},
 }
 
@@ -349,7 +349,7 @@ def _base(t, defect):
 # ----------------------------------------------------------------------------------
 # (ii) required value missing somewhere in a task graph
 
-POSITIONS = ["cfg", "ins", "dct", "node.nxt", "node.others", "node.named", "node.leaf", "node.metasub", "node.metalist", "pre-task", "init-task", "wrap.inner"]
+POSITIONS = ["cfg", "ins", "dct", "node.nxt", "node.others", "node.named", "node.leaf", "node.metasub", "node.metalist", "pre-task", "init-task", "wrap.inner", "node.nl", "node.dlc", "node.ldc", "node.metanl"]
 
 
 @st.composite
@@ -451,6 +451,14 @@ def prop_missing(ctx, case):
             holder = Node(leaf=bad)
         elif p == "metasub":
             holder = Node(metasub=bad)
+        elif p == "nl":
+            holder = Node(nl=[[Leaf(i=7)] if case["siblings"] else [], in_list(bad)][:: (1 if case["index"] % 2 else -1)])
+        elif p == "metanl":
+            holder = Node(metanl=[[], in_list(bad)] if case["index"] % 2 else [in_list(bad)])
+        elif p == "dlc":
+            holder = Node(dlc={"first": [], "second": in_list(bad)})
+        elif p == "ldc":
+            holder = Node(ldc=[{"ok": Leaf(i=5)}, in_dict(bad)] if case["siblings"] else [in_dict(bad)])
         else:
             holder = Node(metalist=in_list(bad))
     if holder is not None:
@@ -477,8 +485,10 @@ def prop_missing(ctx, case):
         labels.append("missing:in-dict")
     if container:
         labels.append("missing:in-list")
-    if pos in ("node.metasub", "node.metalist"):
+    if pos in ("node.metasub", "node.metalist", "node.metanl"):
         labels.append("missing:under-meta")
+    if pos in ("node.nl", "node.dlc", "node.ldc", "node.metanl"):
+        labels.append("missing:nested-container")
     if case["valid"]:
         labels.append("missing:control-valid")
         if raised is not None:
@@ -506,6 +516,8 @@ def _pos_kind(pos, holder, case):
         return "below-" + ("list" if pos == "ins" else "dict")
     if holder is not None and case["via"] in ("ins", "dct"):
         return "below-" + ("list" if case["via"] == "ins" else "dict")
+    if pos in ("node.nl", "node.dlc", "node.ldc", "node.metanl"):
+        return "below-nested-container"
     if pos in ("node.others", "node.metalist"):
         return "below-list"
     if pos == "node.named":
